@@ -107,5 +107,24 @@ Definition dispatch (cmd : string) (a : val) : val :=
                    | RNone => VN 0 | RRoot => VN 1
                    | RFound i e => VL [VN i; VItem (Live e)] end)
          (resolve up s (get_path (arg 4 a)))
+  else if String.eqb cmd "resolved" then
+    (* ops-slot = list of paths (with "." / ".." components); per path
+       [walkd over the records; the node it stands for in the tree; twalkd over abs_tree] --
+       the statement of resolved_refines, evaluated *)
+    VL (List.map (fun pv =>
+          let p := get_path pv in
+          let fuel := S (List.length (v_dirs s)) in
+          let r := resolved up s p in
+          VL [VRes (fun r => match r with
+                             | RNone => VN 0 | RRoot => VN 1
+                             | RFound i e => VL [VN i; VItem (Live e)] end) r;
+              match r with
+              | Ok RNone => VL []
+              | Ok RRoot => VL [VNode (abs_tree s)]
+              | Ok (RFound i e) => VL [VNode (if is_dir e then abs_dir s fuel (e_clu e) else File (e_size e))]
+              | Err _ => VL []
+              end;
+              VRes (fun o => match o with None => VL [] | Some n => VL [VNode n] end)
+                   (twalkd up [] (abs_tree s) p)]) (getL (arg 4 a)))
   else if String.eqb cmd "chain" then VNs (chain_of V (v_fat s) (getN (arg 4 a)))
   else VErr "unknown command".
